@@ -204,7 +204,7 @@ example : parse "a[@n<=2 and not(@m)]/b//text()[2]|.//@x:y".toList = .ok
 
 /-! ## Predicate evaluation -/
 
-/-- **pred_eval_sound.**  On the typed fragment — attribute lookups `@*`, `@p:*`, `@name`,
+/-- **pred_eval_sound.**  On the typed fragment — attribute lookups `@*`, `@p:*`, `@name`, `@p:name`,
     literals, bound variables holding strings / numbers / booleans, every function of the
     documented subset except `substring` (finding C05-substring) and the non-XPath `matches`,
     `and` / `or`, the six comparison operators — the value the implementation computes for a
@@ -215,8 +215,8 @@ example : parse "a[@n<=2 and not(@m)]/b//text()[2]|.//@x:y".toList = .ok
     `function_table_sound` (token ↦ class ↦ this semantics) a swapped comparison or a wrong
     coercion is a failed proof.
 
-    Not covered (the gap to the full statement): `@p:name` lookups in predicates (name
-    hygiene of expanded names), `substring`. -/
+    Not covered (the gap to the full statement): `substring` (finding), `matches` (not XPath
+    1.0), node tests other than attribute lookups used as values. -/
 theorem pred_eval_sound (n : Node) (hn : nodeOk n) (ns : NsMap) (vs : Vars) (e : Expr)
     (ht : e.typed ns vs = true) (hab : e.absentFree (nodeEvent n) ns vs = true) :
     (e.eval (nodeEvent n) ns vs).toX = some (Ref.xEval n ns (toXVars vs) e) :=
